@@ -23,7 +23,7 @@ RULE = ('one case = one history: a construction (constructor / from_sequence / C
         'root, non-root SR or non-SR sequence from 0..4 items followed by 1..15 operations drawn from append, extend, '
         '(argument a list or a ContentSequence with any flags), insert (any position), setitem (index / slice incl. extended), delitem (index / slice), +=, pop, remove, '
         'reverse, clear, continue-on-find-result, continue-on-get_nodes-result; in 35 % of the histories a POOL of up to three sequences is alive (clone = ContentSequence(member, own flags), attach = item.ContentSequence = member), operations go to any member and EVERY member is observed after every step; items share a 4-name alphabet (equal '
-        'names may differ in code meaning), carry or lack a relationship type, and have a unique ObservationUID unless '
+        'names may differ in code meaning; two further names are an SRT / SCT alias pair, == but with different hashes), carry or lack a relationship type, and have a unique ObservationUID unless '
         'deliberately duplicated (same object or equal copy); after every step list, find(n) for all names, index/in '
         'for all items made so far and get_nodes are observed.  Non-trivial = history with >= 2 accepted mutations and '
         'two items sharing a name present at some point; distinct by (kind, op-kind sequence, accept pattern)')
@@ -39,6 +39,8 @@ MODELLED_NOT_VERIFIED = ['pydicom.sequence.Sequence / ConstrainedList (list muta
                          'pydicom Dataset.__eq__']
 
 NAMES = 4                      # alphabet n0..n3 (+ one name never used: index NAMES)
+ALIAS = (5, 6)                 # two names that are == (SRT T-B7000 / SCT 111002) but hash differently
+ALL_NAMES = 7                  # every name index that is looked up after every step
 RELS = ['CONTAINS', 'HAS PROPERTIES', 'HAS OBS CONTEXT', 'INFERRED FROM']
 KINDS = {'root': (True, True), 'sr': (False, True), 'nonsr': (False, False)}
 ERR = {'IndexError': 'index', 'ValueError': 'value', 'TypeError': 'type', 'RuntimeError': 'runtime',
@@ -54,6 +56,9 @@ def _gen_item(r, kind, st, p_bad=0.15, init=False):
         base = r.choice(st['made'])
         d = dict(base)
         d['dup'] = r.choice(['same', 'copy'])
+        if d['dup'] == 'copy':                 # an equal COPY is another object: its own tag
+            st['copies'] = st.get('copies', 0) + 1
+            d['t'] = 100000 + st['copies']
         return d
     u = st['next']
     st['next'] += 1
@@ -67,15 +72,21 @@ def _gen_item(r, kind, st, p_bad=0.15, init=False):
     else:
         rel = r.choice(RELS) if r.random() < (0.04 if init else 0.3) else None
         cls = r.choice(['text', 'text', 'code', 'num', 'container'])
-    d = {'u': u, 'n': min(r.randrange(NAMES + 2), NAMES - 1) if r.random() < 0.5 else r.randrange(NAMES),
-         'm': r.randrange(2), 'rel': rel, 'cls': cls, 'content': r.random() < 0.35}
+    d = {'u': u, 'n': r.choice(ALIAS) if r.random() < 0.03 else
+         (min(r.randrange(NAMES + 2), NAMES - 1) if r.random() < 0.5 else r.randrange(NAMES)),
+         'm': r.randrange(2), 'rel': rel, 'cls': cls, 'content': r.random() < 0.35, 't': u}
     st['made'].append(d)
     return d
+
+
+BAD_POS = {'float': 1.0, 'none': None, 'str': 'first'}
 
 
 def _gen_bulk(r, op, kind, st, p_bad, sizes):
     """extend / += : the argument is a plain list or (35 %) a ContentSequence of ANY kind (root / SR / non-SR flags),
     holding items its own constructor accepts -- which need not obey the rule of the receiving sequence."""
+    if r.random() < 0.06:
+        return {'op': 'extend_self', 'how': op, 'xs': [], 'as_seq': None}      # seq.extend(seq) / seq += seq
     if r.random() < 0.35:
         akind = r.choice(['root', 'sr', 'nonsr', kind])
         xs = []
@@ -110,12 +121,15 @@ def gen_case(ctx, idx):
     r = ctx.rng('hist', idx)
     kind = r.choice(['root', 'sr', 'sr', 'nonsr'])
     st = {'next': 1, 'made': []}
-    via = r.choice(['ctor', 'ctor', 'ctor', 'from_sequence', 'setattr' if kind == 'sr' else 'ctor'])
+    via = r.choice(['ctor', 'ctor', 'iterator', 'from_sequence', 'setattr' if kind == 'sr' else 'ctor'])
     n_init = r.choice([0, 0, 1, 2, 2, 3, 4])
     p_bad_init = 0.04
     init = [_gen_item(r, kind, st, p_bad_init, init=True) for _ in range(n_init)]
-    for d in init:
-        d.pop('dup', None) if via == 'from_sequence' else None
+    if via == 'from_sequence':
+        for k, d in enumerate(init):            # parsing makes every data set an object of its own
+            if 'dup' in d:
+                d.pop('dup')
+                d['t'] = 200000 + k
     nops = r.choice([1, 2, 3, 4, 5, 6, 8, 10, 12, 15])
     ops = []
     est = n_init                      # rough length estimate, only steers the index distribution
@@ -132,7 +146,8 @@ def gen_case(ctx, idx):
             ops.append(_gen_bulk(r, 'extend', kind, st, 0.08, [0, 1, 2, 2, 3]))
             est += len(ops[-1]['xs'])
         elif x < 0.48:
-            ops.append({'op': 'insert', 'pos': r.randint(-est - 2, est + 2), 'x': _gen_item(r, kind, st)})
+            ops.append({'op': 'insert', 'pos': r.choice(['float', 'none', 'str']) if r.random() < 0.07 else r.randint(-est - 2, est + 2),
+                        'x': _gen_item(r, kind, st)})
             est += 1
         elif x < 0.58:
             ops.append({'op': 'setitem', 'i': r.randint(-est - 1, est), 'x': _gen_item(r, kind, st)})
@@ -180,6 +195,10 @@ def gen_case(ctx, idx):
 
 def _name(n, m=0):
     from highdicom.sr.coding import CodedConcept
+    if n == ALIAS[0]:
+        return CodedConcept('T-B7000', 'SRT', 'alias a')
+    if n == ALIAS[1]:
+        return CodedConcept('111002', 'SCT', 'alias b')
     return CodedConcept(value=str(1000 + n), scheme_designator='99HDV', meaning=f'name {n}' + (' (alt)' if m else ''))
 
 
@@ -206,22 +225,42 @@ def _build(d):
     return it
 
 
+def _tag(d):
+    """identity of the object an item specification stands for (default for hand-written cases: the uid; copies apart)"""
+    return d.get('t', d['u'] if d.get('dup') != 'copy' else 100000 + d['u'])
+
+
 class _Objs:
-    """uid -> the object standing for that item (one object per uid unless an equal copy is requested)."""
+    """tag -> the Python object; uid -> the specification of the content (equal copies share the uid)."""
 
     def __init__(self):
-        self.by_uid = {}
+        self.by_tag = {}
+        self.by_uid = {}          # uid -> some object with that content (source of copies)
         self.specs = {}
+        self.tag_of = {}          # id(object) -> tag
+
+    def register(self, tag, obj):
+        self.by_tag[tag] = obj
+        self.tag_of[id(obj)] = tag
+        self.by_uid.setdefault(_uid_of(obj), obj)
 
     def get(self, d):
-        u = d['u']
+        u, t = d['u'], _tag(d)
         self.specs.setdefault(u, {k: d[k] for k in ('u', 'n', 'm', 'rel', 'cls', 'content')})
-        if u not in self.by_uid:
-            self.by_uid[u] = _build(d)
-            return self.by_uid[u]
-        if d.get('dup') == 'copy':
-            return _copy.deepcopy(self.by_uid[u])
-        return self.by_uid[u]
+        if t in self.by_tag:
+            return self.by_tag[t]
+        if u in self.by_uid and d.get('dup') == 'copy':
+            obj = _copy.deepcopy(self.by_uid[u])
+        elif d.get('dup') == 'copy':
+            self.register(u, _build(d))
+            obj = _copy.deepcopy(self.by_uid[u])
+        else:
+            obj = _build(d)
+        self.register(t, obj)
+        return obj
+
+    def tags(self, xs):
+        return [self.tag_of.get(id(i), -1) for i in xs]
 
 
 def _kind_of(e):
@@ -229,17 +268,20 @@ def _kind_of(e):
 
 
 def _observe(seq, objs, probes):
-    """Everything the property talks about, read off the real sequence."""
-    def uids(xs):
-        return [_uid_of(i) for i in xs]
-    obs = {'list': uids(list(seq)), 'find': [], 'index': [], 'in': [], 'nodes': None}
-    for n in range(NAMES + 1):
+    """Everything the property talks about, read off the real sequence; items are reported by OBJECT tag."""
+    lst = list(seq)
+    obs = {'list': objs.tags(lst), 'uids': [_uid_of(i) for i in lst], 'find': [], 'find_uids': [], 'index': [], 'in': [],
+           'nodes': None, 'nodes_uids': None}
+    for n in range(ALL_NAMES):
         try:
-            obs['find'].append(uids(list(seq.find(_name(n)))))
+            found = list(seq.find(_name(n)))
+            obs['find'].append(objs.tags(found))
+            obs['find_uids'].append([_uid_of(i) for i in found])
         except Exception as e:  # noqa: BLE001
             obs['find'].append('err:' + _kind_of(e))
-    for u in probes:
-        x = objs.by_uid[u]
+            obs['find_uids'].append('err:' + _kind_of(e))
+    for t in probes:
+        x = objs.by_tag[t]
         try:
             obs['index'].append(int(seq.index(x)))
         except Exception as e:  # noqa: BLE001
@@ -249,9 +291,11 @@ def _observe(seq, objs, probes):
         except Exception as e:  # noqa: BLE001
             obs['in'].append('err:' + _kind_of(e))
     try:
-        obs['nodes'] = uids(list(seq.get_nodes()))
+        nodes = list(seq.get_nodes())
+        obs['nodes'] = objs.tags(nodes)
+        obs['nodes_uids'] = [_uid_of(i) for i in nodes]
     except Exception as e:  # noqa: BLE001
-        obs['nodes'] = 'err:' + _kind_of(e)
+        obs['nodes'] = obs['nodes_uids'] = 'err:' + _kind_of(e)
     return obs
 
 
@@ -279,18 +323,30 @@ def _oracle(ctx, case, step, seq, kind, objs, probes, obs):
     luids = [_uid_of(i) for i in lst]
     where = {'case': case, 'step': step}
     # find: exactly the current items with that name, once each (multiset; the property does not fix the order)
-    for n in range(NAMES + 1):
+    for n in range(ALL_NAMES):
         nm = _name(n)
         want = sorted(_uid_of(i) for i in lst if i.name == nm)
-        got = obs['find'][n]
+        got = obs['find_uids'][n]
         if isinstance(got, str):
             ctx.fail(where, f'find(name {n}) raised {got}; list={luids}', site='find')
         elif sorted(got) != want:
+            if n in ALIAS:      # the open finding: reported once per history (the failure list is capped)
+                seen = ctx.__dict__.setdefault('_alias_reported', set())
+                if case.get('idx') in seen or len(seen) >= 40:      # at most 40 reports of the known finding per run
+                    continue
+                seen.add(case.get('idx'))
             ctx.fail(where, {'what': f'find(name {n}) differs from the items of that name in the list',
                              'found': sorted(got), 'in_list_with_name': want, 'list': luids}, site='find')
-    # index / in agree with the list itself
-    for k, u in enumerate(probes):
-        x = objs.by_uid[u]
+        elif sorted(obs['find'][n]) != sorted(objs.tags([i for i in lst if i.name == nm])):
+            # the same contents, but not the same OBJECTS as are in the sequence
+            ctx.fail(where, {'what': f'find(name {n}) returns objects that are equal to, but not the same as, the items in the '
+                                     'sequence', 'found_objects': sorted(obs['find'][n]),
+                             'objects_in_list': sorted(objs.tags([i for i in lst if i.name == nm])), 'list': luids},
+                     site='find-identity')
+    # index / in agree with the list itself (== semantics of list.index)
+    for k, t in enumerate(probes):
+        x = objs.by_tag[t]
+        u = _uid_of(x)
         present = any(x == i for i in lst)
         got = obs['index'][k]
         if present:
@@ -305,11 +361,11 @@ def _oracle(ctx, case, step, seq, kind, objs, probes, obs):
             ctx.fail(where, {'what': f'(item {u} in seq) disagrees with the list', 'got': obs['in'][k], 'want': present,
                              'list': luids}, site='contains')
     # get_nodes
-    want = sorted(_uid_of(i) for i in lst if 'ContentSequence' in i)
+    want = sorted(objs.tags([i for i in lst if 'ContentSequence' in i]))
     if isinstance(obs['nodes'], str):
         ctx.fail(where, f'get_nodes raised {obs["nodes"]}; list={luids}', site='get_nodes')
     elif sorted(obs['nodes']) != want:
-        ctx.fail(where, {'what': 'get_nodes differs from the items with content in the list', 'got': obs['nodes'],
+        ctx.fail(where, {'what': 'get_nodes differs from the items with content in the list', 'got': obs['nodes_uids'],
                          'want': want}, site='get_nodes')
     # relationship rule over the current list (raw attribute presence, not the library's accessor)
     for i in lst:
@@ -324,6 +380,10 @@ def _expected_accept(kind, op, n, objs):
     """True when the operation offers only items obeying the property's rule at a valid position, so that a
     refusal would be enforcement of some OTHER rule; None when the oracle has no opinion."""
     o = op['op']
+    if o == 'insert' and isinstance(op['pos'], str):
+        return None
+    if o == 'extend_self':
+        return True
     if o in ('append', 'insert'):
         return True if _rule_ok(kind, op['x']) else False
     if o in ('extend', 'iadd'):
@@ -363,8 +423,24 @@ def _apply(seq, op, objs):
             seq.extend(_bulk_arg(op, objs))
         elif o == 'iadd':
             seq += _bulk_arg(op, objs)
+        elif o == 'extend_self':
+            # the receiver itself as argument; guarded, because an implementation that iterates the live list never ends
+            import signal
+
+            def _alarm(*a):
+                raise RuntimeError('extend(self) did not terminate within 2 s')
+            old = signal.signal(signal.SIGALRM, _alarm)
+            signal.setitimer(signal.ITIMER_REAL, 2.0)
+            try:
+                if op.get('how') == 'iadd':
+                    seq += seq
+                else:
+                    seq.extend(seq)
+            finally:
+                signal.setitimer(signal.ITIMER_REAL, 0)
+                signal.signal(signal.SIGALRM, old)
         elif o == 'insert':
-            seq.insert(op['pos'], objs.get(op['x']))
+            seq.insert(BAD_POS[op['pos']] if isinstance(op['pos'], str) else op['pos'], objs.get(op['x']))
         elif o == 'setitem':
             seq[op['i']] = objs.get(op['x'])
         elif o == 'setslice':
@@ -401,12 +477,16 @@ def _construct(case, objs):
         if case['via'] == 'from_sequence':
             plain = [Dataset.from_json(i.to_json()) for i in items]
             seq = ContentSequence.from_sequence(plain, is_root=is_root, is_sr=is_sr)
-            for i in seq:
+            for i, d in zip(seq, case['init']):       # the parsed objects take the places (and tags) of the given ones
+                objs.by_tag.pop(_tag(d), None)
                 objs.by_uid[_uid_of(i)] = i
+                objs.register(_tag(d), i)
         elif case['via'] == 'setattr':
             parent = ContainerContentItem(_name(0), relationship_type='CONTAINS')
             parent.ContentSequence = items
             seq = parent.ContentSequence
+        elif case['via'] == 'iterator':
+            seq = ContentSequence((i for i in items), is_root=is_root, is_sr=is_sr)      # a one-shot iterable
         else:
             seq = ContentSequence(items, is_root=is_root, is_sr=is_sr)
     except Exception as e:  # noqa: BLE001
@@ -435,8 +515,8 @@ def run_history(ctx, case, oracle=True):
     def note_items(ds):
         for d in ds:
             objs.get(d)
-            if d['u'] not in probes:
-                probes.append(d['u'])
+            if _tag(d) not in probes:
+                probes.append(_tag(d))
     note_items([case['probe']])
     note_items(case['init'])
     seq, err = _construct(case, objs)
@@ -471,6 +551,11 @@ def run_history(ctx, case, oracle=True):
                 err = _kind_of(e)
         else:
             pool[t], err = _apply(pool[t], op, objs)
+            if err == 'runtime' and op['op'] == 'extend_self':
+                if oracle:
+                    ctx.fail({'case': case, 'step': k}, 'seq.extend(seq) / seq += seq did not terminate', site='extend-self')
+                trace.append({'err': err, 'obs': None})
+                return trace, objs
         obs = [_observe(m, objs, probes) for m in pool]
         trace.append({'err': err, 'obs': obs, 'probes': list(probes)})
         if oracle:
@@ -484,7 +569,7 @@ def run_history(ctx, case, oracle=True):
                 if op['op'] in ('pop', 'remove', 'reverse', 'clear') and err not in (None, 'index', 'value'):
                     ctx.fail({'case': case, 'step': k}, f'{op["op"]} failed with {err}', site=op['op'])
             elif op['op'] == 'clone' and err is not None and all(
-                    _ctor_documented_ok(kinds[t], objs.specs[u]) for u in trace[-2]['obs'][t]['list']):
+                    _ctor_documented_ok(kinds[t], objs.specs[u]) for u in trace[-2]['obs'][t]['uids']):
                 ctx.fail({'case': case, 'step': k}, f'a sequence could not be constructed from a {kinds[t]} sequence with the '
                                                     f'same flags ({err})', site='clone')
             for m, (member, mk) in enumerate(zip(pool, kinds)):
@@ -496,7 +581,8 @@ def run_history(ctx, case, oracle=True):
 # model side
 
 def _item_json(d):
-    return [d['n'], (RELS.index(d['rel']) if d['rel'] is not None else None), d['cls'] == 'container', bool(d['content']), d['u']]
+    return [d['n'], (RELS.index(d['rel']) if d['rel'] is not None else None), d['cls'] == 'container', bool(d['content']), d['u'],
+            _tag(d)]
 
 
 def model_request(case):
@@ -511,7 +597,7 @@ def model_request(case):
         ops.append(o)
     probes = [case['probe']['u']]
     return ('history', {'root': is_root, 'sr': is_sr, 'via': case['via'], 'init': [_item_json(d) for d in case['init']],
-                        'ops': ops, 'names': NAMES + 1, 'probe': _item_json(case['probe'])})
+                        'ops': ops, 'names': ALL_NAMES, 'probe': _item_json(case['probe'])})
 
 
 def _compare(ctx, case, trace, ans):
@@ -682,3 +768,14 @@ def shrink(ctx, failure):
             if f:
                 cur, best, changed = t, f, True
     return best
+
+
+def attribute(failure, open_findings):
+    """find(name) misses an item whose name is == but hashes differently (the SRT / SCT alias pair): known finding."""
+    ids = {f['id'] for f in open_findings}
+    d = failure.get('detail')
+    what = d.get('what', '') if isinstance(d, dict) else str(d)
+    if 'C14-alias-names-split-index' in ids and failure.get('site') == 'find' and \
+            any(f'find(name {n})' in what for n in ALIAS):
+        return 'C14-alias-names-split-index'
+    return None
